@@ -183,7 +183,8 @@ class SimSource:
     (NumPy would clip silently); can fail the k-th non-empty request."""
 
     def __init__(self, backing, storage_grid=None, name="src", tokenizable=True, lock=None, fancy_ok=True,
-                 array_function=False):
+                 array_function=False, lazy=False):
+        self.lazy = lazy  # __getitem__ only SELECTS; the I/O happens when the selection is materialised
         self._a = backing
         self._orig = backing.copy()
         self.shape = backing.shape
@@ -211,6 +212,13 @@ class SimSource:
             self.errors.append(f"request {idx_json(idx)} raised {type(e).__name__}: {e}")
             raise
         nonempty = getattr(out, "size", 1) != 0
+        if self.lazy and nonempty and PHASE[0] == "execute" and isinstance(out, np.ndarray):
+            # a lazily indexed backend (xarray's lazily-indexed adapters, netCDF variable proxies): nothing is
+            # read here; the read -- and with it the lock requirement and any I/O error -- happens in
+            # np.asarray(selection)
+            if reason:
+                self.errors.append(f"out-of-bounds request {idx_json(idx)}: {reason}")
+            return _Deferred(self, idx, out)
         held = None
         if self.lock is not None:
             held = self.lock.held_by_current()
@@ -251,6 +259,29 @@ class SimSource:
 
     def __reduce__(self):
         return (_rebuild_source, (self._orig, getattr(self, "chunks", None), self.name))
+
+
+class _Deferred:
+    """The selection a lazy source hands back: shape and dtype are known, the data is not read yet.
+    Deliberately NOT array-like in dask's sense (no __array_function__/__array_ufunc__), like the
+    lazily indexed adapters it stands for, so that ``getter`` materialises it with np.asarray."""
+
+    def __init__(self, src, idx, out):
+        self._src, self._idx, self._out = src, idx, out
+        self.shape, self.dtype, self.ndim, self.size = out.shape, out.dtype, out.ndim, out.size
+
+    def __array__(self, dtype=None, copy=None):
+        s = self._src
+        held = s.lock.held_by_current() if s.lock is not None else None
+        s.log.append((PHASE[0], CURRENT["task"], idx_json(self._idx), tuple(self._out.shape), held))
+        if PHASE[0] == "execute":
+            k = s.nreq
+            s.nreq += 1
+            if s.fail_at is not None and k == s.fail_at:
+                s.faults_fired += 1
+                raise InjectedIOError(f"injected read fault at request {k} of {s.name} (while materialising)")
+        a = np.array(self._out)
+        return a.astype(dtype) if dtype is not None else a
 
 
 class OpaqueSimSource(SimSource):
